@@ -155,6 +155,14 @@ def obligations(tier, seed):
     # labels in another file
     add("cancel/other-file", [("a.mac", ".link {K} + {M} * (E - S)\n.word 1\n"), ("b.mac", "S:: .word 2, 3\nE:: .word 4\n")], "accept",
         base=[[1, ["K"]], [4, ["M"]]], vars_=["K", "M"], length=8)
+    # three linked files: the link expression and the probes use labels of the second and third file
+    f3 = [("a.mac", "T:: .word T, 1\n.byte 1, 2\n"), ("b.mac", "S:: .word S, T\n.word 3\n"), ("c.mac", "E:: .word E, S\n")]
+    pr3f = [[0, [[0, []]]], [6, [[6, []]]], [8, [[0, []]]], [12, [[12, []]]], [14, [[6, []]]]]
+    for where, files in (("first", [("a.mac", ".link {K} + {M} * (E - S)\n" + f3[0][1]), f3[1], f3[2]]),
+                         ("last", [f3[0], f3[1], ("c.mac", f3[2][1] + ".link {K} + {M} * (E - S)\n")]),
+                         ("middle", [f3[0], ("b.mac", ".link {K} + {M} * (E - T)\n" + f3[1][1]), f3[2]])):
+        coef = 6 if where != "middle" else 12
+        add(f"cancel/three-files/{where}", files, "accept", base=[[1, ["K"]], [coef, ["M"]]], vars_=["K", "M"], probes=pr3f, length=16)
     # genuinely self-dependent
     for where in ("first", "last"):
         def put(link):
